@@ -63,7 +63,8 @@ class PteraNameError(NameError):
         self.function = function
         # Recorded now: the function loses its instrumentation, and this
         # table with it, when the probes that are active now end
-        self._info = function.__ptera_info__[varname]
+        info = getattr(function, "__ptera_info__", None) or {}
+        self._info = info.get(varname, {})
         prov = self.info().get("provenance", None)
         if prov == "external":
             msg = (
